@@ -583,7 +583,7 @@ Qed.
 Lemma heal_from_nodrop tm0 : forall fuel m s m' s',
   tm0 = s_types s -> fresh_ok m -> wf_reg m tm0 ->
   (forall n o, In (n, o) tm0 -> is_builtin o = false -> tres tm0 m o) ->
-  heal_from fuel m s = Ok (m', s') -> s_types s' = tm0 /\ ext tm0 m m'.
+  heal_from fuel m s = Ok (m', s') -> s_types s' = tm0 /\ ext tm0 m m' /\ fresh_ok m'.
 Proof.
   intros fuel m s m' s' -> Hf Hwf Hres H. unfold heal_from, traverse in H.
   destruct (traverse_list (visit_type (heal_visitor (s_types s))) is_builtin m (s_types s)) as [[m1 tu]|] eqn:Ht; [|discriminate].
@@ -595,7 +595,7 @@ Proof.
   destruct fuel as [|fuel]; [simpl in H; discriminate|].
   rewrite replace_and_heal_S in H. simpl in H.
   destruct (replace_dirs du (s_dirs s)) as [dm| | |]; simpl in H; try discriminate.
-  inversion H; subst. simpl. split; [reflexivity|eapply ext_trans; eauto].
+  inversion H; subst. simpl. split; [reflexivity|]. split; [eapply ext_trans; eauto|exact (proj1 Hi2)].
 Qed.
 
 Lemma resm_same tm m x x' : mget m x' = mget m x -> resm tm m x -> resm tm m x'.
@@ -739,10 +739,12 @@ Qed.
 Theorem clone_preserved fuel m s m' s' :
   fresh_ok m -> builtins_ok m -> closed m s -> wf_schema m s -> wf_builtins s ->
   clone fuel m s = Ok (m', s') ->
+  (fresh_ok m' /\ wf_reg m' (s_types s') /\
+   forall n o, In (n, o) (s_types s') -> is_builtin o = false -> exists t, In (n, t) (s_types s) /\ is_builtin t = false) /\
   forall n t, In (n, t) (s_types s) -> is_builtin t = false ->
     exists t', alookup n (s_types s') = Some t' /\ type_cloned m' n t t'.
 Proof.
-  intros Hf Hb Hcl Hwf Hbi H n t Hin Hnb.
+  intros Hf Hb Hcl Hwf Hbi H.
   destruct (clone_owned _ _ _ _ _ Hf Hb Hcl Hwf Hbi H) as (Fown & _).
   set (n0 := m_next m) in *.
   assert (Hgok : gok n0 m).
@@ -753,7 +755,6 @@ Proof.
   unfold clone in H.
   destruct (build fuel m (s_query s) (s_mut s) (s_sub s) (map snd (s_dirs s)) (map snd (s_types s))) as [s0| | |] eqn:Hb0;
     simpl in H; try discriminate.
-  (* the registry built for the clone: all the names of the source *)
   assert (Hreg0 : forall n1 o1, In (n1, o1) (s_types s) -> alookup n1 (s_types s0) = Some o1).
   { intros n1 o1 Hi1. destruct (build_registers _ _ _ _ _ _ _ _ Hb Hb0 o1) as (nx & Hnx & Hlx).
     - apply in_map_iff. exists (n1, o1); auto.
@@ -774,51 +775,60 @@ Proof.
   pose proof (grow_trans _ _ _ _ G1 G2) as G12.
   pose proof (g_pres _ _ _ G12) as P12.
   destruct (clone_entries_keys _ _ _ _ _ _ (wf_keys _ _ Hwf) Hct) as (Hndu & _).
-  destruct (clone_entries_v n0 _ _ _ _ Hgok Hsrc Hct n t Hin Hnb) as (t' & Htu & Hc1).
-  pose proof (tcopy_pres _ _ _ _ _ (g_pres _ _ _ G2) Hc1) as Hc2.
   destruct fuel as [|fuel]; [simpl in H; discriminate|].
   rewrite replace_and_heal_S in H.
   destruct (replace_types m2 tu (s_types s0) false) as [[tm' b]| | |] eqn:Hrt; simpl in H; try discriminate.
   destruct (replace_dirs du (s_dirs s0)) as [dm'| | |] eqn:Hrd; simpl in H; try discriminate.
-  assert (Hlk : alookup n tm' = Some t').
-  { eapply replace_types_lookup; [exact Hndu|exact Htu| |exact Hrt]. rewrite (Hreg0 n t Hin). discriminate. }
-  exists t'.
+  assert (Hwf0 : wf_reg m2 (s_types s0)).
+  { split.
+    - exact (build_nodup _ _ _ _ _ _ _ _ Hb0).
+    - intros n1 o1 Hi1. destruct (Hnames0 n1 o1 Hi1) as (Hn & _). unfold tname in *.
+      destruct (mget m o1) as [v|] eqn:Hv; [|discriminate]. rewrite (P12 _ _ Hv). exact Hn. }
+  assert (Hwf' : wf_reg m2 tm').
+  { eapply replace_types_wf; [exact Hwf0| |exact Hrt]. intros n1 y Hin1.
+    destruct (clone_entries_v' n0 _ _ _ _ Hgok Hsrc Hct n1 y Hin1) as (o1 & _ & _ & Hc).
+    apply (tcopy_pres _ _ _ _ _ (g_pres _ _ _ G2)) in Hc.
+    destruct Hc as (k & d & ms & ifs & r & ds & ms' & _ & B & _). unfold tname. rewrite B. reflexivity. }
   (* the source's cells *)
   set (S := fun x => mget m x <> None).
   assert (HS2 : forall x, S x -> mget m2 x = mget m x).
   { intros x Hx. unfold S in Hx. destruct (mget m x) as [v|] eqn:Hv; [|congruence]. apply P12. exact Hv. }
-  assert (Hmem : forall k d ms ifs r ds, mget m2 t = Some (OType n k d ms ifs r ds) ->
-            forall x, In x ms -> S x /\ forall a, In a (oargs m2 x) -> S a).
-  { intros k d ms ifs r ds Hg2. assert (St : S t).
+  assert (Hmain : forall mf, ext tm' m2 mf -> (forall x, S x -> mget mf x = mget m2 x) ->
+            forall n t, In (n, t) (s_types s) -> is_builtin t = false ->
+              exists t', alookup n tm' = Some t' /\ type_cloned mf n t t').
+  { intros mf Hemf HSmf n t Hin Hnb.
+    destruct (clone_entries_v n0 _ _ _ _ Hgok Hsrc Hct n t Hin Hnb) as (t' & Htu & Hc1).
+    pose proof (tcopy_pres _ _ _ _ _ (g_pres _ _ _ G2) Hc1) as Hc2.
+    assert (Hlk : alookup n tm' = Some t').
+    { eapply replace_types_lookup; [exact Hndu|exact Htu| |exact Hrt]. rewrite (Hreg0 n t Hin). discriminate. }
+    exists t'. split; [exact Hlk|].
+    assert (St : S t).
     { unfold S. pose proof (wf_names _ _ Hwf _ _ Hin) as Hn. unfold tname in Hn. destruct (mget m t); [discriminate|discriminate]. }
-    rewrite (HS2 t St) in Hg2. pose proof (wf_typed _ _ Hwf _ _ Hin Hnb) as Htt. unfold type_typed in Htt. rewrite Hg2 in Htt.
-    assert (Hleaf : forall l, Forall (leaf m) l -> forall x, In x l -> S x /\ oargs m x = []).
-    { intros l Hl x Hx. rewrite Forall_forall in Hl. specialize (Hl x Hx). unfold leaf in Hl. unfold S, oargs.
-      destruct (mget m x) as [[| | | |]|]; try contradiction; split; try discriminate; reflexivity. }
-    assert (Hfld : Forall (field_typed m) ms -> forall x, In x ms -> S x /\ forall a, In a (oargs m2 x) -> S a).
-    { intros Hl x Hx. rewrite Forall_forall in Hl. specialize (Hl x Hx). unfold field_typed in Hl.
-      assert (Sx : S x) by (unfold S; destruct (mget m x); [discriminate|contradiction]).
-      split; [assumption|]. intros a Ha. unfold oargs in Ha. rewrite (HS2 x Sx) in Ha.
-      destruct (mget m x) as [[| | | |]|]; try contradiction. exact (proj1 (Hleaf _ Hl a Ha)). }
-    assert (Hlf : Forall (leaf m) ms -> forall x, In x ms -> S x /\ forall a, In a (oargs m2 x) -> S a).
-    { intros Hl x Hx. destruct (Hleaf _ Hl x Hx) as (Sx & Ho). split; [assumption|].
-      intros a Ha. unfold oargs in Ha, Ho. rewrite (HS2 x Sx) in Ha. rewrite Ho in Ha. destruct Ha. }
-    destruct k; auto; subst ms; intros x []. }
-  assert (St : S t).
-  { unfold S. pose proof (wf_names _ _ Hwf _ _ Hin) as Hn. unfold tname in Hn. destruct (mget m t); [discriminate|discriminate]. }
+    assert (Hmem : forall k d ms ifs r ds, mget m2 t = Some (OType n k d ms ifs r ds) ->
+              forall x, In x ms -> S x /\ forall a, In a (oargs m2 x) -> S a).
+    { intros k d ms ifs r ds Hg2.
+      rewrite (HS2 t St) in Hg2. pose proof (wf_typed _ _ Hwf _ _ Hin Hnb) as Htt. unfold type_typed in Htt. rewrite Hg2 in Htt.
+      assert (Hleaf : forall l, Forall (leaf m) l -> forall x, In x l -> S x /\ oargs m x = []).
+      { intros l Hl x Hx. rewrite Forall_forall in Hl. specialize (Hl x Hx). unfold leaf in Hl. unfold S, oargs.
+        destruct (mget m x) as [[| | | |]|]; try contradiction; split; try discriminate; reflexivity. }
+      assert (Hfld : Forall (field_typed m) ms -> forall x, In x ms -> S x /\ forall a, In a (oargs m2 x) -> S a).
+      { intros Hl x Hx. rewrite Forall_forall in Hl. specialize (Hl x Hx). unfold field_typed in Hl.
+        assert (Sx : S x) by (unfold S; destruct (mget m x); [discriminate|contradiction]).
+        split; [assumption|]. intros a Ha. unfold oargs in Ha. rewrite (HS2 x Sx) in Ha.
+        destruct (mget m x) as [[| | | |]|]; try contradiction. exact (proj1 (Hleaf _ Hl a Ha)). }
+      assert (Hlf : Forall (leaf m) ms -> forall x, In x ms -> S x /\ forall a, In a (oargs m2 x) -> S a).
+      { intros Hl x Hx. destruct (Hleaf _ Hl x Hx) as (Sx & Ho). split; [assumption|].
+        intros a Ha. unfold oargs in Ha, Ho. rewrite (HS2 x Sx) in Ha. rewrite Ho in Ha. destruct Ha. }
+      destruct k; auto; subst ms; intros x []. }
+    eapply (tcopy_cloned tm' m2 mf S); [exact Hemf|exact HSmf|exact St|exact Hmem|exact Hc2]. }
+  pose proof (build_sub _ _ _ _ Hb Hcl Hwf Hbi Hb0) as Hsub0.
+  assert (Hback : forall n1 o, In (n1, o) tm' -> is_builtin o = false -> exists t, In (n1, t) (s_types s) /\ is_builtin t = false).
+  { intros n1 o Hi1 Hbo.
+    destruct (replace_types_in_strict _ _ _ _ _ _ _ _ (proj1 Hwf0) Hrt Hi1) as [Hu|[Ho Hno]].
+    - destruct (clone_entries_v' n0 _ _ _ _ Hgok Hsrc Hct n1 o Hu) as (o1 & Hio1 & Hbo1 & _). exists o1. auto.
+    - exfalso. destruct (K1 n1 o (Hsub0 _ Ho) Hbo) as (y & Hy). exact (Hno _ Hy). }
   destruct b.
   - (* the references of the copies are healed; nothing is dropped *)
-    assert (Hwf0 : wf_reg m2 (s_types s0)).
-    { split.
-      - exact (build_nodup _ _ _ _ _ _ _ _ Hb0).
-      - intros n1 o1 Hi1. destruct (Hnames0 n1 o1 Hi1) as (Hn & _). unfold tname in *.
-        destruct (mget m o1) as [v|] eqn:Hv; [|discriminate]. rewrite (P12 _ _ Hv). exact Hn. }
-    pose proof (build_sub _ _ _ _ Hb Hcl Hwf Hbi Hb0) as Hsub0.
-    assert (Hwf' : wf_reg m2 tm').
-    { eapply replace_types_wf; [exact Hwf0| |exact Hrt]. intros n1 y Hin1.
-      destruct (clone_entries_v' n0 _ _ _ _ Hgok Hsrc Hct n1 y Hin1) as (o1 & _ & _ & Hc).
-      apply (tcopy_pres _ _ _ _ _ (g_pres _ _ _ G2)) in Hc.
-      destruct Hc as (k & d & ms & ifs & r & ds & ms' & _ & B & _). unfold tname. rewrite B. reflexivity. }
     assert (Hkeys : forall k, In k (map fst (s_types s)) -> alookup k tm' <> None).
     { intros k Hk. apply in_map_iff in Hk. destruct Hk as ([k1 o1] & <- & Hi1). simpl.
       eapply replace_types_keeps; [exact N1| |exact Hrt]. rewrite (Hreg0 _ _ Hi1). discriminate. }
@@ -831,11 +841,11 @@ Proof.
       - exfalso. destruct (K1 n1 o (Hsub0 _ Ho) Hbo) as (y & Hy). exact (Hno _ Hy). }
     match type of H with obind (heal_from fuel m2 ?s1) _ = _ =>
       destruct (heal_from fuel m2 s1) as [[m3 s3]| | |] eqn:Hrec; simpl in H; try discriminate;
-      destruct (heal_from_nodrop tm' fuel m2 s1 m3 s3 eq_refl (g_fresh _ _ _ G12) Hwf' Htres Hrec) as (Hreg3 & He3) end.
-    inversion H; subst m' s'. simpl. rewrite Hreg3. split; [exact Hlk|].
-    eapply (tcopy_cloned tm' m2 m3 S); [exact He3| |exact St|exact Hmem|exact Hc2].
-    intros x Sx. rewrite (HS2 x Sx). unfold S in Sx. destruct (mget m x) as [v|] eqn:Hv; [|congruence].
+      destruct (heal_from_nodrop tm' fuel m2 s1 m3 s3 eq_refl (g_fresh _ _ _ G12) Hwf' Htres Hrec) as (Hreg3 & He3 & Hf3) end.
+    inversion H; subst m' s'. simpl. rewrite Hreg3.
+    split; [split; [exact Hf3|split; [eapply wf_reg_ext; eauto|exact Hback]]|].
+    apply (Hmain m3 He3). intros x Sx. rewrite (HS2 x Sx). unfold S in Sx. destruct (mget m x) as [v|] eqn:Hv; [|congruence].
     rewrite <- Hv. apply (fr_frame _ _ _ Fown). eapply Hex; eauto.
-  - inversion H; subst m' s'. simpl. split; [exact Hlk|].
-    eapply (tcopy_cloned tm' m2 m2 S); [apply ext_refl|auto|exact St|exact Hmem|exact Hc2].
+  - inversion H; subst m' s'. simpl. split; [split; [exact (g_fresh _ _ _ G12)|split; [exact Hwf'|exact Hback]]|].
+    apply (Hmain m2 (ext_refl tm' m2)). auto.
 Qed.
